@@ -85,7 +85,7 @@ def check_request(ctx, req, snap, reqt, wit):
         ek = "HTTP_" + name.upper().replace("-", "_")
         ck(snap.get(ek) == value, "environ/HTTP_header", "environ HTTP_ variable differs from the parsed header",
            {"variable": ek, "value": snap.get(ek), "header": value})
-    ck(snap.get("HTTP_HOST") == "127.0.0.1:%d" % req["port"], "environ/HTTP_HOST", "Host header is not host:port of the server",
+    ck(snap.get("HTTP_HOST") == "%s:%d" % (req["host"], req["port"]), "environ/HTTP_HOST", "Host header is not host:port of the server",
        {"HTTP_HOST": snap.get("HTTP_HOST")})
     body = snap.get("wsgi.input.read")
     ck(isinstance(body, bytes) and body == reqt["body"], "environ/wsgi.input", "wsgi.input does not yield the parsed body")
@@ -163,6 +163,7 @@ def one_case(ctx, rng, idx, mem, deadline):
     try:
         pair = hg.Pair(app, rng=rng, mem=mem)
         req["port"] = pair.port
+        req["host"] = pair.host
         patron = pair.patron()
         kw = {"method": req["method"], "path": req["path"], "qargs": _od(req["qargs"]), "headers": _od(req["headers"])}
         if req["kind"] == "body":
